@@ -1,3 +1,533 @@
-/-! # C07 — (stub: property theorems go here; see docs/BUILDING.md) -/
+import PtVerif.Proofs.LoadersNsfField
+import PtVerif.Proofs.LoadersNsfOk
+import PtVerif.Proofs.LoadersMass
+import PtVerif.Model.LoaderTables
+import PtVerif.Generated.NsfTables
+import PtVerif.Generated.MassTables
+import PtVerif.Generated.Constants
+/-!
+# C07 — neutron data of every element and isotope are those of the embedded table
+
+Model: `PtVerif.Model.LoadersNsf` (`parseNsfLine`, `fixNumber`, `Nsf.loadText`; `Nsf.loadRows` =
+main pass, gap fills, imaginary table, energy-dependent tables, natural Lu), tied to nsf.py /
+nsf_tables.py by `harness/ptv/props/C07.py`.
+
+Part 1: theorems for **every** table (any rows, any number type).  Part 2: kernel-checked
+facts about the embedded tables (`Generated.NsfTables`, regenerated on every run).  Part 3: part 1
+on the embedded tables.  Part 4: the recorded finding D19 (Pu, Cm).
+
+Not covered: floating-point rounding; numpy's `interp` is modelled by `PtLoad.interp`; the
+string-level parse = generated rows is checked by the compiled driver.
+-/
 namespace PtVerif.C07
+open PtLoad
+
+/-! ## Part 1 — every table -/
+
+section generic
+variable {α : Type} [Add α] [Sub α] [Mul α] [Div α] [Neg α] [OfNat α 0] [NatCast α] [IntCast α]
+  [Transc α]
+
+/-- what a row's record holds: the seven numeric columns (uncertainties dropped, `<` and `*`
+    read as the bare number, blanks as `none`), the E flag, the abundance (0 for a half-life),
+    and the complex `b_c − i·σ_a/(2000·λ₀)` -/
+theorem record_of_row (lam0 : α) (nd : Nat → Option α) (r : NsfRow) :
+    (recOf lam0 nd r).b_c = r.b_c.val ∧ (recOf lam0 nd r).bp = r.bp.val ∧ (recOf lam0 nd r).bm = r.bm.val
+    ∧ (recOf lam0 nd r).coherent = r.coh.val ∧ (recOf lam0 nd r).incoherent = r.inc.val
+    ∧ (recOf lam0 nd r).total = r.tot.val ∧ (recOf lam0 nd r).absorption = r.abs.val
+    ∧ (recOf lam0 nd r).isE = r.isE
+    ∧ (recOf lam0 nd r).bcc = some (r.b_c.val, -((r.abs.val (α := α)).getD 0) / (((2000 : Nat) : α) * lam0))
+    ∧ (recOf lam0 nd r).abundance = (if r.a = 0 then some (0 : α) else (match r.p with
+                                                                  | none => some (0 : α)
+                                                                  | some u => (u.val : Option α))) := by
+  by_cases h : r.a = 0
+  · simp [recOf, rowRec, bcImag, h]
+  · simp [recOf, rowRec, bcImag, h]
+    cases r.p <;> rfl
+
+/-- **field_is_column (isotopes)**: the isotope of the (last) row with its key reports that
+    row's b+, b−, coherent, incoherent, absorption, E flag, abundance, complex b_c -/
+theorem iso_fields_are_columns (env : NsfEnv α) (t : NsfTables) (pre post : List NsfRow) (r : NsfRow)
+    (ht : t.rows = pre ++ r :: post) (ha : r.a ≠ 0)
+    (hlast : ∀ x ∈ post, x.a = 0 ∨ (x.z, x.a) ≠ (r.z, r.a)) :
+    ((Nsf.loadRows env t).isoNeutron r.z r.a).rowPart = (recOf env.lam0 env.nd r).rowPart :=
+  iso_row_fields env t pre post r ht ha hlast
+
+/-- **field_is_column (elements)** -/
+theorem el_fields_are_columns (env : NsfEnv α) (t : NsfTables) (pre post : List NsfRow) (r : NsfRow)
+    (ht : t.rows = pre ++ r :: post) (ha : r.a = 0) (hlast : ∀ x ∈ post, x.z = r.z → x.a ≠ 0) :
+    ((Nsf.loadRows env t).elNeutron r.z).rowPart = (recOf env.lam0 env.nd r).rowPart :=
+  el_row_fields env t pre post r ht ha hlast
+
+theorem iso_spin_is_column (env : NsfEnv α) (t : NsfTables) (pre post : List NsfRow) (r : NsfRow)
+    (ht : t.rows = pre ++ r :: post) (ha : r.a ≠ 0)
+    (hlast : ∀ x ∈ post, x.a = 0 ∨ (x.z, x.a) ≠ (r.z, r.a)) :
+    aget (r.z, r.a) (Nsf.loadRows env t).spin = some r.spin := iso_row_spin env t pre post r ht ha hlast
+
+/-- `b_c` is the column except for the record the Eu-151 gap fill targets, which gets
+    `sqrt(coherent/(4π/100))` -/
+theorem b_c_is_column_or_gap_fill (env : NsfEnv α) (t : NsfTables) (i : Nat) (r : NsfRow)
+    (h : t.rows[i]? = some r) :
+    ((Nsf.loadRows env t).getRec (i + 1)).b_c
+      = if i + 1 = (ptrs t.rows).isoId 63 151
+        then (recOf env.lam0 env.nd r).coherent.map fun c => Transc.sqrt (c / fourPi100)
+        else (recOf env.lam0 env.nd r).b_c := b_c_of_index env t i r h
+
+/-- `total` is the column except for the record the Xe gap fill targets: coherent + incoherent -/
+theorem total_is_column_or_gap_fill (env : NsfEnv α) (t : NsfTables) (i : Nat) (r : NsfRow)
+    (h : t.rows[i]? = some r) :
+    ((Nsf.loadRows env t).getRec (i + 1)).total
+      = if i + 1 = (ptrs t.rows).elId 54
+        then (match (recOf env.lam0 env.nd r).coherent, (recOf env.lam0 env.nd r).incoherent with
+              | some c, some i => some (c + i)
+              | _, _ => none)
+        else (recOf env.lam0 env.nd r).total := total_of_index env t i r h
+
+/-- the record a row of the imaginary table names reports its three values -/
+theorem imaginary_lengths_served (env : NsfEnv α) (t : NsfTables) (pre post : List NsfIRow) (x : NsfIRow)
+    (ht : t.irows = pre ++ x :: post)
+    (h : ∀ y ∈ post, itarget (ptrs t.rows) y ≠ itarget (ptrs t.rows) x) :
+    ((Nsf.loadRows env t).getRec (itarget (ptrs t.rows) x)).imag
+      = (x.b_c_i.val, x.bp_i.val, x.bm_i.val) := imag_of_row env t pre post x ht h
+
+/-- … and a record the imaginary table does not name has none -/
+theorem imaginary_lengths_absent (env : NsfEnv α) (t : NsfTables) (i : Nat) (r : NsfRow)
+    (hr : t.rows[i]? = some r) (h : ∀ y ∈ t.irows, itarget (ptrs t.rows) y ≠ i + 1) :
+    ((Nsf.loadRows env t).getRec (i + 1)).imag = (none, none, none) := imag_none_of_index env t i r hr h
+
+/-- **elements without a row of their own share the `Neutron` object of their first listed
+    isotope** – in particular a single-isotope element reports its isotope's record -/
+theorem single_isotope_element_shares_record (env : NsfEnv α) (t : NsfTables) (pre post : List NsfRow)
+    (r : NsfRow) (ht : t.rows = pre ++ r :: post) (ha : r.a ≠ 0)
+    (hpre : ∀ x ∈ pre, x.z ≠ r.z) (hpost : ∀ x ∈ post, x.z = r.z → x.a ≠ 0)
+    (hlast : ∀ x ∈ post, x.a = 0 ∨ (x.z, x.a) ≠ (r.z, r.a)) :
+    (Nsf.loadRows env t).elId r.z = (Nsf.loadRows env t).isoId r.z r.a
+      ∧ (Nsf.loadRows env t).elId r.z ≠ 0 :=
+  element_shares_first_isotope env t pre post r ht ha hpre hpost hlast
+
+/-- **atoms not in the table report that no SLD is available**: an element no row mentions and
+    an isotope without a row point to the shared default record, whose `has_sld()` is false -/
+theorem absent_element_has_no_sld (env : NsfEnv α) (t : NsfTables) (z : Nat)
+    (h : ∀ x ∈ t.rows, x.z ≠ z) : ((Nsf.loadRows env t).elNeutron z).hasSld = false := by
+  unfold NsfState.elNeutron
+  rw [absent_element_default env t z h]
+  exact default_has_no_sld env t
+
+theorem absent_isotope_has_no_sld (env : NsfEnv α) (t : NsfTables) (z a : Nat)
+    (h : ∀ x ∈ t.rows, x.a = 0 ∨ (x.z, x.a) ≠ (z, a)) :
+    ((Nsf.loadRows env t).isoNeutron z a).hasSld = false := by
+  unfold NsfState.isoNeutron
+  rw [absent_isotope_default env t z a h]
+  exact default_has_no_sld env t
+
+/-- every energy-dependent table is attached to its atom, converted and reversed -/
+theorem energy_table_attached (env : NsfEnv α) (t : NsfTables) (pre post : List EDTable) (e : EDTable)
+    (id : Nat) (ht : t.ed = pre ++ e :: post) (he : etarget env.zOf (ptrs t.rows) e = some id)
+    (h : ∀ y ∈ post, etarget env.zOf (ptrs t.rows) y ≠ some id) (hlu : id ≠ (ptrs t.rows).elId 71) :
+    ((Nsf.loadRows env t).getRec id).table = some (edTable env.ef e.rows) :=
+  ed_table_of_entry env t pre post e id ht he h hlu
+
+end generic
+
+/-- increasing energies ⇒ (after eV → Å and reversal) increasing wavelengths -/
+theorem table_reversed_increasing (ef : ℝ) (hef : 0 < ef) (rows : List (Dec × Dec × Dec))
+    (h : decIncreasing (rows.map (·.1)) = true) :
+    ((edTable ef rows).map Prod.fst).Pairwise (· < ·) := PtLoad.table_reversed_increasing ef hef rows h
+
+/-- **each energy-dependent entry returns, at every tabulated energy, exactly the tabulated
+    complex scattering length** -/
+theorem node_returns_tabulated (ef : ℝ) (hef : 0 < ef) (rows : List (Dec × Dec × Dec))
+    (h : decIncreasing (rows.map (·.1)) = true) (r : Dec × Dec × Dec) (hr : r ∈ rows) :
+    interp (neutronWavelength ef (r.1.toNum * ((1000 : Nat) : ℝ))) (edTable ef rows)
+      = some ((r.2.1.toNum : ℝ), (r.2.2.toNum : ℝ)) := ed_node_returns_tabulated ef hef rows h r hr
+
+/-- `numpy.interp` at a node of any increasing table, over any ordered field -/
+theorem interp_at_node {α : Type} [Field α] [LinearOrder α] [IsStrictOrderedRing α]
+    (tbl : List (α × Cx α)) (hs : (tbl.map Prod.fst).Pairwise (· < ·)) (p : α × Cx α) (hp : p ∈ tbl) :
+    interp p.1 tbl = some p.2 := interp_node tbl hs p hp
+
+/-! `fix_number` on the forms the table uses -/
+example : fixNumber "35.24(2)*".toList = some (.valUnc ⟨3524, 2⟩ ⟨2, 2⟩) := by decide +kernel
+example : fixNumber "<6.0E-6".toList = some (.plain ⟨60, 7⟩) := by decide +kernel
+example : fixNumber "".toList = some .missing := by decide +kernel
+example : fixNumber "2065.(35.)".toList = some (.valUnc ⟨2065, 0⟩ ⟨35, 0⟩) := by decide +kernel
+example : (parseNsfLine "4-Be-9,100,3/2,7.79(1),,,,7.63(2),0.0018(9),7.63(2),0.0076(8)".toList).map
+    (fun r => (r.z, r.a, r.p, r.spin, r.b_c, r.isE)) =
+    some (4, 9, some (.plain ⟨100, 0⟩), "3/2", .valUnc ⟨779, 2⟩ ⟨1, 2⟩, false) := by decide +kernel
+
+/-! ## Part 2 — the embedded tables (kernel-checked on every run) -/
+
+
+/-- `nsftable`: keys `(Z, A)` (A = 0 for the element row) strictly increasing, hence distinct;
+    an element row precedes its isotopes -/
+theorem nsf_keys_sorted : strictSorted (PtGen.nsfRows.map nsfKeyOf) = true := by decide +kernel
+
+/-- every row names an element of the table by number and symbol and has an absorption value
+    (`-None` would be a TypeError) -/
+theorem nsf_rows_ok : PtGen.nsfRows.all (fun r => symOf r.z == some r.sym && r.abs != .missing) = true := by
+  decide +kernel
+
+/-- every isotope row names a nuclide of the isotope-mass table (so `add_isotope` creates no
+    mass-less isotope) -/
+theorem nsf_isotopes_have_mass :
+    PtGen.nsfRows.all (fun r => r.a == 0 || r.z == 0 || (rowOf (groupByZ PtGen.isoMassRows) r.z r.a).isSome) = true := by
+  decide +kernel
+
+/-- every tabulated total cross section is a positive number -/
+theorem totals_positive :
+    PtGen.nsfRows.all (fun r => r.tot == .missing || decide r.tot.Pos) = true := by decide +kernel
+
+theorem nsf_keys_distinct : (PtGen.nsfRows.map nsfKeyOf).Nodup :=
+  nodup_of_strictSorted _ nsf_keys_sorted
+
+/-- **every single-isotope element points to its isotope's record** -/
+theorem single_isotope_elements_share :
+    allZ.all (fun z => match singleIsotope PtGen.nsfRows z with
+      | some a => (ptrs PtGen.nsfRows).elId z == (ptrs PtGen.nsfRows).isoId z a
+                  && (ptrs PtGen.nsfRows).elId z != 0
+      | none => true) = true := by decide +kernel
+
+/-- the Xe gap: the element row of Xe has no total but coherent and incoherent values, and the
+    gap fill targets exactly that row's record -/
+theorem xe_gap :
+    (match PtGen.nsfRows[(ptrs PtGen.nsfRows).elId 54 - 1]? with
+     | some r => r.z == 54 && r.a == 0 && r.tot == .missing && decide r.coh.Pos && r.inc != .missing
+     | none => false) = true := by decide +kernel
+
+/-- the Eu-151 gap: the row has no b_c but a coherent cross section -/
+theorem eu_gap :
+    (match PtGen.nsfRows[(ptrs PtGen.nsfRows).isoId 63 151 - 1]? with
+     | some r => r.z == 63 && r.a == 151 && r.b_c == .missing && decide r.coh.Pos
+     | none => false) = true := by decide +kernel
+
+/-- every row of the imaginary table names an atom that has a row of its own, and no two rows
+    name the same record -/
+theorem imag_targets :
+    (PtGen.nsfIRows.map (itarget (ptrs PtGen.nsfRows))).all (· != 0) = true
+    ∧ (PtGen.nsfIRows.map (itarget (ptrs PtGen.nsfRows))).Nodup := by decide +kernel
+
+/-- … and it names it by its own key: the target record is the one built from the row `(Z, A)` -/
+theorem imag_targets_are_rows :
+    PtGen.nsfIRows.all (fun x => match PtGen.nsfRows[itarget (ptrs PtGen.nsfRows) x - 1]? with
+      | some r => r.z == x.z && r.a == x.a
+      | none => false) = true := by decide +kernel
+
+/-- energy-dependent tables: energies positive and strictly increasing in every table -/
+theorem energies_increasing :
+    PtGen.edTables.all (fun e => decIncreasing (e.rows.map (·.1))) = true := by decide +kernel
+
+/-- each table names an atom that has a row of its own; no two name the same record; none is
+    natural Lu's (which is mixed afterwards) -/
+theorem ed_targets :
+    (PtGen.edTables.map (etarget zOf (ptrs PtGen.nsfRows))).all
+        (fun t => match t with | some id => id != 0 && id != (ptrs PtGen.nsfRows).elId 71 | none => false) = true
+    ∧ (PtGen.edTables.map (etarget zOf (ptrs PtGen.nsfRows))).Nodup := by decide +kernel
+
+theorem ed_targets_are_rows :
+    PtGen.edTables.all (fun e => match etarget zOf (ptrs PtGen.nsfRows) e with
+      | some id => (match PtGen.nsfRows[id - 1]? with
+          | some r => zOf e.sym == some r.z && r.a == e.a
+          | none => false)
+      | none => false) = true := by decide +kernel
+
+/-! ## Part 3 — part 1 on the embedded tables -/
+
+section generated
+variable {α : Type} [Add α] [Sub α] [Mul α] [Div α] [Neg α] [OfNat α 0] [NatCast α] [IntCast α]
+  [Transc α]
+
+theorem atomRec_of_row (env : NsfEnv α) (i : Nat) (r : NsfRow) (h : PtGen.nsfRows[i]? = some r) :
+    atomRec (Nsf.loadRows env PtGen.nsfTables) r.z r.a = (Nsf.loadRows env PtGen.nsfTables).getRec (i + 1) := by
+  have := atom_owns_row env PtGen.nsfTables nsf_keys_distinct i r h
+  unfold atomRec NsfState.elNeutron NsfState.isoNeutron
+  split
+  · rename_i ha; rw [if_pos ha] at this; rw [this]
+  · rename_i ha; rw [if_neg ha] at this; rw [this]
+
+/-- **all 364 rows**: the element or isotope a row names reports that row's b+, b−, coherent,
+    incoherent, absorption, E flag, abundance and complex b_c -/
+theorem generated_fields (env : NsfEnv α) (i : Nat) (r : NsfRow) (h : PtGen.nsfRows[i]? = some r) :
+    (atomRec (Nsf.loadRows env PtGen.nsfTables) r.z r.a).rowPart = (recOf env.lam0 env.nd r).rowPart := by
+  rw [atomRec_of_row env i r h]
+  exact record_of_index env PtGen.nsfTables i r h
+
+/-- … its b_c, except Eu-151 which gets the gap fill -/
+theorem generated_b_c (env : NsfEnv α) (i : Nat) (r : NsfRow) (h : PtGen.nsfRows[i]? = some r)
+    (hne : (r.z, r.a) ≠ (63, 151)) :
+    (atomRec (Nsf.loadRows env PtGen.nsfTables) r.z r.a).b_c = r.b_c.val := by
+  rw [atomRec_of_row env i r h, b_c_of_index env PtGen.nsfTables i r h]
+  have hk := eu_gap
+  split
+  · rename_i he
+    exfalso
+    have : (ptrs PtGen.nsfTables.rows).isoId 63 151 - 1 = i := by
+      have : (ptrs PtGen.nsfTables.rows).isoId 63 151 = i + 1 := he.symm
+      omega
+    have hrows : PtGen.nsfTables.rows = PtGen.nsfRows := rfl
+    rw [hrows] at this
+    rw [this, h] at hk
+    simp only [Bool.and_eq_true, beq_iff_eq, decide_eq_true_eq] at hk
+    exact hne (by rw [hk.1.1.1, hk.1.1.2])
+  · exact (record_of_row env.lam0 env.nd r).1
+
+/-- … and its total, except Xe which gets the gap fill -/
+theorem generated_total (env : NsfEnv α) (i : Nat) (r : NsfRow) (h : PtGen.nsfRows[i]? = some r)
+    (hne : (r.z, r.a) ≠ (54, 0)) :
+    (atomRec (Nsf.loadRows env PtGen.nsfTables) r.z r.a).total = r.tot.val := by
+  rw [atomRec_of_row env i r h, total_of_index env PtGen.nsfTables i r h]
+  have hk := xe_gap
+  split
+  · rename_i he
+    exfalso
+    have : (ptrs PtGen.nsfTables.rows).elId 54 - 1 = i := by
+      have : (ptrs PtGen.nsfTables.rows).elId 54 = i + 1 := he.symm
+      omega
+    have hrows : PtGen.nsfTables.rows = PtGen.nsfRows := rfl
+    rw [hrows] at this
+    rw [this, h] at hk
+    simp only [Bool.and_eq_true, beq_iff_eq, decide_eq_true_eq] at hk
+    exact hne (by rw [hk.1.1.1.1, hk.1.1.1.2])
+  · exact (record_of_row env.lam0 env.nd r).2.2.2.2.2.1
+
+/-- every single-isotope element of the embedded table reports its isotope's record -/
+theorem generated_single_isotope (env : NsfEnv α) (z a : Nat)
+    (h : singleIsotope PtGen.nsfRows z = some a) (hz : z ∈ allZ) :
+    (Nsf.loadRows env PtGen.nsfTables).elNeutron z = (Nsf.loadRows env PtGen.nsfTables).isoNeutron z a := by
+  have := List.all_eq_true.mp single_isotope_elements_share z hz
+  rw [h] at this
+  simp only [Bool.and_eq_true, beq_iff_eq] at this
+  unfold NsfState.elNeutron NsfState.isoNeutron
+  rw [loadRows_elId, loadRows_isoId]
+  show (Nsf.loadRows env PtGen.nsfTables).getRec ((ptrs PtGen.nsfRows).elId z)
+    = (Nsf.loadRows env PtGen.nsfTables).getRec ((ptrs PtGen.nsfRows).isoId z a)
+  rw [this.1]
+
+/-- the atom `(z, a)` reports the record its pointer names -/
+theorem atomRec_eq_getRec (env : NsfEnv α) (t : NsfTables) (z a : Nat) :
+    atomRec (Nsf.loadRows env t) z a
+      = (Nsf.loadRows env t).getRec (if a = 0 then (ptrs t.rows).elId z else (ptrs t.rows).isoId z a) := by
+  unfold atomRec NsfState.elNeutron NsfState.isoNeutron
+  split
+  · rw [loadRows_elId]
+  · rw [loadRows_isoId]
+
+/-- **all 16 rows of the imaginary table**: the element or isotope a row names reports that
+    row's b_c_i, b+_i, b−_i -/
+theorem generated_imaginary (env : NsfEnv α) (x : NsfIRow) (hx : x ∈ PtGen.nsfIRows) :
+    (atomRec (Nsf.loadRows env PtGen.nsfTables) x.z x.a).imag = (x.b_c_i.val, x.bp_i.val, x.bm_i.val) := by
+  obtain ⟨pre, post, hsplit, hlast⟩ :=
+    split_of_mem_nodup (itarget (ptrs PtGen.nsfRows)) PtGen.nsfIRows imag_targets.2 x hx
+  have := imag_of_row env PtGen.nsfTables pre post x hsplit hlast
+  rw [atomRec_eq_getRec]
+  exact this
+
+/-- **all 14 energy-dependent tables**: the atom a table names carries that table, converted
+    from eV to Å and reversed -/
+theorem generated_energy_table (env : NsfEnv α) (henv : env.zOf = zOf) (e : EDTable) (he : e ∈ PtGen.edTables)
+    (z : Nat) (hz : zOf e.sym = some z) :
+    (atomRec (Nsf.loadRows env PtGen.nsfTables) z e.a).table = some (edTable env.ef e.rows) := by
+  obtain ⟨pre, post, hsplit⟩ := List.append_of_mem he
+  have htgt : etarget zOf (ptrs PtGen.nsfRows) e
+      = some (if e.a = 0 then (ptrs PtGen.nsfRows).elId z else (ptrs PtGen.nsfRows).isoId z e.a) := by
+    unfold etarget; rw [hz]; rfl
+  have hall := ed_targets.1
+  have hnd := ed_targets.2
+  rw [atomRec_eq_getRec]
+  apply ed_table_of_entry env PtGen.nsfTables pre post e _ hsplit (by rw [henv]; exact htgt)
+  · intro y hy hy'
+    rw [henv] at hy'
+    have hsplit' : PtGen.edTables = pre ++ e :: post := hsplit
+    rw [hsplit', List.map_append, List.map_cons] at hnd
+    have := (List.nodup_append.mp hnd).2.1
+    rw [List.nodup_cons] at this
+    exact this.1 (List.mem_map.mpr ⟨y, hy, hy'.trans htgt.symm⟩)
+  · have := List.all_eq_true.mp hall _ (List.mem_map.mpr ⟨e, he, rfl⟩)
+    rw [htgt] at this
+    simp only [Bool.and_eq_true, bne_iff_ne, ne_eq] at this
+    exact this.2
+
+end generated
+
+/-- **at every tabulated energy every energy-dependent atom of the embedded table returns
+    exactly the tabulated complex scattering length** (ℝ; `ENERGY_FACTOR > 0`) -/
+theorem generated_nodes_return_tabulated (env : NsfEnv ℝ) (henv : env.zOf = zOf) (hef : 0 < env.ef)
+    (e : EDTable) (he : e ∈ PtGen.edTables) (z : Nat) (hz : zOf e.sym = some z)
+    (r : Dec × Dec × Dec) (hr : r ∈ e.rows) :
+    (atomRec (Nsf.loadRows env PtGen.nsfTables) z e.a).bcAt
+        (neutronWavelength env.ef (r.1.toNum * ((1000 : Nat) : ℝ)))
+      = some ((r.2.1.toNum : ℝ), (r.2.2.toNum : ℝ)) := by
+  unfold NRec.bcAt
+  rw [generated_energy_table env henv e he z hz]
+  have hinc := List.all_eq_true.mp energies_increasing e he
+  exact ed_node_returns_tabulated env.ef hef e.rows hinc r hr
+
+/-! ### `nsf.init` runs to completion on the embedded tables -/
+
+theorem rows_guard :
+    PtGen.nsfRows.all (fun r => symOf r.z == some r.sym && (r.abs.val (α := Rat)).isSome) = true := by
+  decide +kernel
+
+theorem xe_row_fact :
+    ((ptrs PtGen.nsfRows).elId 54 != 0 &&
+      match PtGen.nsfRows[(ptrs PtGen.nsfRows).elId 54 - 1]? with
+      | some r => r.tot == .missing && r.coh != .missing && r.inc != .missing
+      | none => false) = true := by decide +kernel
+
+theorem eu_row_fact :
+    ((ptrs PtGen.nsfRows).isoId 63 151 != 0 &&
+      match PtGen.nsfRows[(ptrs PtGen.nsfRows).isoId 63 151 - 1]? with
+      | some r => r.a != 0 && nsfKeyOf r == (63, 151) && r.b_c == .missing && r.coh != .missing
+      | none => false) = true := by decide +kernel
+
+theorem lu175_row_fact :
+    ((ptrs PtGen.nsfRows).isoId 71 175 != 0 &&
+      match PtGen.nsfRows[(ptrs PtGen.nsfRows).isoId 71 175 - 1]? with
+      | some r => r.a != 0 && nsfKeyOf r == (71, 175)
+      | none => false) = true := by decide +kernel
+
+theorem lu176_row_fact : PtGen.nsfRows.any (fun r => r.a != 0 && nsfKeyOf r == (71, 176)) = true := by
+  decide +kernel
+
+theorem irows_guard :
+    PtGen.nsfIRows.all (fun x => (symOf x.z).isSome &&
+      (x.a == 0 || PtGen.nsfRows.any (fun r => r.a != 0 && nsfKeyOf r == (x.z, x.a)))) = true := by
+  decide +kernel
+
+theorem ed_guard :
+    PtGen.edTables.all (fun e => match zOf e.sym with
+      | some z => e.a == 0 || PtGen.nsfRows.any (fun r => r.a != 0 && nsfKeyOf r == (z, e.a))
+      | none => false) = true := by decide +kernel
+
+theorem lu176_table_fact :
+    PtGen.edTables.any (fun e => etarget zOf (ptrs PtGen.nsfRows) e == some ((ptrs PtGen.nsfRows).isoId 71 176)) = true := by
+  decide +kernel
+
+section
+variable {α : Type} [Add α] [Sub α] [Mul α] [Div α] [Neg α] [OfNat α 0] [NatCast α] [IntCast α]
+  [Transc α]
+
+/-- the embedded tables are well-formed for every environment that indexes the real element
+    table and knows the two Lu abundances -/
+theorem generated_wellFormed (env : NsfEnv α) (hs : env.symOf = symOf) (hz : env.zOf = zOf)
+    (hab : env.ab175.isSome = true ∧ env.ab176.isSome = true) : WellFormed env PtGen.nsfTables := by
+  have any_row : ∀ (k : Nat × Nat), PtGen.nsfRows.any (fun r => r.a != 0 && nsfKeyOf r == k) = true →
+      ∃ r ∈ PtGen.nsfTables.rows, r.a ≠ 0 ∧ nsfKeyOf r = k := by
+    intro k h
+    obtain ⟨r, hr, hp⟩ := List.any_eq_true.mp h
+    simp only [Bool.and_eq_true, bne_iff_ne, ne_eq, beq_iff_eq] at hp
+    exact ⟨r, hr, hp.1, hp.2⟩
+  have idx : ∀ n : Nat, n ≠ 0 → n = (n - 1) + 1 := fun n h => by omega
+  have hrows : PtGen.nsfTables.rows = PtGen.nsfRows := rfl
+  refine
+    { rows := ?_, sym54 := by rw [hs]; decide +kernel, sym63 := by rw [hs]; decide +kernel,
+      sym71 := by rw [hs]; decide +kernel, xe := ?_, eu := ?_, irows := ?_, ed := ?_, lu175 := ?_,
+      lu176 := any_row _ lu176_row_fact, lu176tbl := ?_, ab := hab }
+  · unfold nsfRowsOk; rw [hs]; exact rows_guard
+  · have h := xe_row_fact
+    rw [Bool.and_eq_true] at h
+    obtain ⟨h0, h1⟩ := h
+    have h0 := bne_iff_ne.mp h0
+    split at h1
+    · rename_i r hr
+      simp only [Bool.and_eq_true, beq_iff_eq, bne_iff_ne, ne_eq] at h1
+      rw [hrows]
+      exact ⟨(ptrs PtGen.nsfRows).elId 54 - 1, r, hr, idx _ h0, h1.1.1, h1.1.2, h1.2⟩
+    · cases h1
+  · have h := eu_row_fact
+    rw [Bool.and_eq_true] at h
+    obtain ⟨h0, h1⟩ := h
+    have h0 := bne_iff_ne.mp h0
+    split at h1
+    · rename_i r hr
+      simp only [Bool.and_eq_true, beq_iff_eq, bne_iff_ne, ne_eq] at h1
+      rw [hrows]
+      exact ⟨(ptrs PtGen.nsfRows).isoId 63 151 - 1, r, hr, idx _ h0, h1.1.1.1, h1.1.1.2, h1.1.2, h1.2⟩
+    · cases h1
+  · intro x hx
+    have := List.all_eq_true.mp irows_guard x hx
+    simp only [Bool.and_eq_true, Bool.or_eq_true, beq_iff_eq] at this
+    rw [hs]
+    refine ⟨this.1, ?_⟩
+    rcases this.2 with h | h
+    · left; exact h
+    · right; exact any_row _ h
+  · intro e he
+    have := List.all_eq_true.mp ed_guard e he
+    rw [hz]
+    split at this
+    · rename_i z hzz
+      refine ⟨z, hzz, ?_⟩
+      simp only [Bool.or_eq_true, beq_iff_eq] at this
+      rcases this with h | h
+      · left; exact h
+      · right; exact any_row _ h
+    · cases this
+  · have h := lu175_row_fact
+    rw [Bool.and_eq_true] at h
+    obtain ⟨h0, h1⟩ := h
+    have h0 := bne_iff_ne.mp h0
+    split at h1
+    · rename_i r hr
+      simp only [Bool.and_eq_true, beq_iff_eq, bne_iff_ne, ne_eq] at h1
+      rw [hrows]
+      exact ⟨(ptrs PtGen.nsfRows).isoId 71 175 - 1, r, hr, idx _ h0, h1.1, h1.2⟩
+    · cases h1
+  · obtain ⟨e, he, hp⟩ := List.any_eq_true.mp lu176_table_fact
+    simp only [beq_iff_eq] at hp
+    obtain ⟨pre, post, hsplit⟩ := List.append_of_mem he
+    refine ⟨pre, e, post, hsplit, by rw [hz]; exact hp, ?_⟩
+    intro y hy hy'
+    rw [hz] at hy'
+    have hnd := ed_targets.2
+    rw [hsplit, List.map_append, List.map_cons] at hnd
+    have := (List.nodup_append.mp hnd).2.1
+    rw [List.nodup_cons] at this
+    exact this.1 (List.mem_map.mpr ⟨y, hy, hy'.trans hp.symm⟩)
+
+/-- **`nsf.init` does not raise on the embedded tables**, and returns the state all the
+    theorems above speak of -/
+theorem generated_load (env : NsfEnv α) (hs : env.symOf = symOf) (hz : env.zOf = zOf)
+    (hab : env.ab175.isSome = true ∧ env.ab176.isSome = true) :
+    Nsf.load env PtGen.nsfTables = some (Nsf.loadRows env PtGen.nsfTables) :=
+  load_of_wellFormed env PtGen.nsfTables (generated_wellFormed env hs hz hab)
+
+end
+
+/-! ## Part 4 — finding D19: an element with several isotope rows and no row of its own
+
+The property says atoms not in the table report that no SLD is available.  The elements Pu and
+Cm have no row, but three isotope rows each; `nsf.init` gives them the record of the first one
+(`if element.neutron is missing`).  The full statement is therefore false on the embedded
+table; what holds is the statement restricted to elements no row mentions
+(`absent_element_has_no_sld`) together with `single_isotope_element_shares_record`. -/
+
+/-- full strength: an element without a row of its own and without exactly one isotope row
+    points to the default record -/
+def element_without_row_has_no_record_full : Prop :=
+  ∀ z, (∀ r ∈ PtGen.nsfRows, ¬(r.z = z ∧ r.a = 0)) → singleIsotope PtGen.nsfRows z = none →
+    (ptrs PtGen.nsfRows).elId z = 0
+
+/-- what is proved: elements that no row mentions at all -/
+theorem element_without_row_has_no_record_partial (z : Nat) (h : ∀ r ∈ PtGen.nsfRows, r.z ≠ z) :
+    (ptrs PtGen.nsfRows).elId z = 0 := by
+  have := absent_element_default (α := ℝ) (env := ⟨symOf, zOf, fun _ => none, fun _ _ => false, none, none, 0, 0⟩)
+    PtGen.nsfTables z h
+  rw [loadRows_elId] at this
+  exact this
+
+/-- Pu (Z = 94) refutes the full statement: it shares Pu-239's record -/
+theorem element_without_row_has_no_record_counterexample : ¬ element_without_row_has_no_record_full := by
+  intro h
+  have h94 := h 94 (by decide +kernel) (by decide +kernel)
+  have : (ptrs PtGen.nsfRows).elId 94 = (ptrs PtGen.nsfRows).isoId 94 239
+      ∧ (ptrs PtGen.nsfRows).elId 94 ≠ 0 := by decide +kernel
+  exact this.2 h94
+
+/-! non-vacuity -/
+example : ∃ r ∈ PtGen.nsfRows, r.z = 4 ∧ r.a = 9 ∧ singleIsotope PtGen.nsfRows 4 = some 9 := by
+  decide +kernel
+example : PtGen.edTables.length = 14 ∧ PtGen.nsfIRows.length = 16 ∧ PtGen.nsfRows.length = 364 := by
+  decide +kernel
+example : ∀ r ∈ PtGen.nsfRows, r.z ≠ 85 := by decide +kernel   -- At: no neutron data at all
+
 end PtVerif.C07
